@@ -945,3 +945,30 @@ package openflow13
 //@   ensures err == nil ==> d.(*NXActionConnTrack).Flags == flags && d.(*NXActionConnTrack).ZoneSrc == zone && d.(*NXActionConnTrack).Length == c.Length && len(d.(*NXActionConnTrack).actions) == 1 && typeis(d.(*NXActionConnTrack).actions[0], *NXActionCTNAT)
 //@   ensures err == nil ==> d.(*NXActionConnTrack).actions[0].(*NXActionCTNAT).Flags == 1 && d.(*NXActionConnTrack).actions[0].(*NXActionCTNAT).rangePresent == 19 && len(d.(*NXActionConnTrack).actions[0].(*NXActionCTNAT).rangeIPv4Min) == 16 && bytes_eq(d.(*NXActionConnTrack).actions[0].(*NXActionCTNAT).rangeIPv4Min, 12, ipMin, 0, 4) && len(d.(*NXActionConnTrack).actions[0].(*NXActionCTNAT).rangeIPv4Max) == 16 && bytes_eq(d.(*NXActionConnTrack).actions[0].(*NXActionCTNAT).rangeIPv4Max, 12, ipMax, 0, 4) && d.(*NXActionConnTrack).actions[0].(*NXActionCTNAT).rangeProtoMin != nil && *d.(*NXActionConnTrack).actions[0].(*NXActionCTNAT).rangeProtoMin == pmin
 //@   ensures err == nil ==> len(b2) == len(b1) && bytes_eq(b2, 0, b1, 0, len(b1))
+
+// thorough tier only: larger instances (two buckets with two actions each; a match with four fields, two masked)
+//@ func lemmaContGroupMod2x2(g, ba, bb, a1, a2, a3, a4) (d, err, b1, b2) [C05 C03]
+//@   thoroughonly
+//@   inlinecalls
+//@   modreach
+//@   allowglobals
+//@   unroll 5
+//@   modifies g.Buckets, g.Header.Length, ba.Actions, ba.Length, bb.Actions, bb.Length
+//@   requires g != nil && ba != nil && bb != nil && wf(a1) && wf(a2) && wf(a3) && wf(a4) && allzero(a1.pad) && allzero(a4.pad) && g.Header.Version == 4 && g.Header.Type == 15 && g.Command != 2
+//@   ensures err == nil && d != nil && typeis(d, *GroupMod) && len(d.(*GroupMod).Buckets) == 2
+//@   ensures err == nil ==> len(d.(*GroupMod).Buckets[0].Actions) == 2 && typeis(d.(*GroupMod).Buckets[0].Actions[0], *ActionOutput) && d.(*GroupMod).Buckets[0].Actions[0].(*ActionOutput).Port == a1.Port && typeis(d.(*GroupMod).Buckets[0].Actions[1], *ActionGroup) && d.(*GroupMod).Buckets[0].Actions[1].(*ActionGroup).GroupId == a2.GroupId
+//@   ensures err == nil ==> len(d.(*GroupMod).Buckets[1].Actions) == 2 && typeis(d.(*GroupMod).Buckets[1].Actions[0], *ActionSetqueue) && d.(*GroupMod).Buckets[1].Actions[0].(*ActionSetqueue).QueueId == a3.QueueId && typeis(d.(*GroupMod).Buckets[1].Actions[1], *ActionPopVlan) && d.(*GroupMod).Buckets[1].Weight == bb.Weight && d.(*GroupMod).Buckets[1].WatchPort == bb.WatchPort
+//@   ensures[C03] err == nil ==> len(b1) == 88 && be16(b1, 2) == 88 && be16(b1, 16) == 40 && be16(b1, 32) == 0 && be32(b1, 36) == a1.Port && be16(b1, 48) == 22 && be32(b1, 52) == a2.GroupId && be16(b1, 56) == 32 && be16(b1, 58) == bb.Weight && be16(b1, 72) == 21 && be32(b1, 76) == a3.QueueId && be16(b1, 80) == 18 && be16(b1, 82) == 8
+//@   ensures err == nil ==> len(b2) == len(b1) && bytes_eq(b2, 0, b1, 0, len(b1))
+
+//@ func lemmaContMatch4(port, mac, mask, et, ip, ipmask) (d, err, b1, b2) [C05 C03]
+//@   thoroughonly
+//@   inlinecalls
+//@   modreach
+//@   allowglobals
+//@   unroll 6
+//@   requires len(mac) == 6 && len(mask) == 6 && len(ip) == 4 && len(ipmask) == 4
+//@   ensures err == nil && d != nil && d.Type == 1 && d.Length == 46 && len(d.Fields) == 4
+//@   ensures err == nil ==> typeis(d.Fields[2].Value, *EthTypeField) && d.Fields[2].Value.(*EthTypeField).EthType == et && d.Fields[3].HasMask && typeis(d.Fields[3].Value, *Ipv4DstField) && typeis(d.Fields[3].Mask, *Ipv4DstField)
+//@   ensures[C03] err == nil ==> len(b1) == 48 && be16(b1, 0) == 1 && be16(b1, 2) == 46 && be32(b1, 4) == 2147483652 && be32(b1, 8) == port && be32(b1, 12) == 2147485452 && bytes_eq(b1, 16, mac, 0, 6) && bytes_eq(b1, 22, mask, 0, 6) && be32(b1, 28) == 2147486210 && be16(b1, 32) == et && be32(b1, 34) == 2147490056 && bytes_eq(b1, 38, ip, 0, 4) && bytes_eq(b1, 42, ipmask, 0, 4) && be16(b1, 46) == 0
+//@   ensures err == nil ==> len(b2) == len(b1) && bytes_eq(b2, 0, b1, 0, len(b1))
